@@ -303,8 +303,20 @@ func buildRelays() {
 	}
 }
 
-func key16(b byte) []byte { k := make([]byte, 16); for i := range k { k[i] = b + byte(i) }; return k }
-func key32(b byte) []byte { k := make([]byte, 32); for i := range k { k[i] = b + byte(3*i) }; return k }
+func key16(b byte) []byte {
+	k := make([]byte, 16)
+	for i := range k {
+		k[i] = b + byte(i)
+	}
+	return k
+}
+func key32(b byte) []byte {
+	k := make([]byte, 32)
+	for i := range k {
+		k[i] = b + byte(3*i)
+	}
+	return k
+}
 
 // useResult says how far an address got.
 type useResult struct {
@@ -320,7 +332,9 @@ func useAddr(t failer, rec *ev.Recorder, origin string, addr conn.Addr, username
 	if !addr.IsValid() {
 		return
 	}
-	desc := func() string { return fmt.Sprintf("origin=%s addr=%q class=%s user=%q", origin, addr.String(), addrClass(addr), username) }
+	desc := func() string {
+		return fmt.Sprintf("origin=%s addr=%q class=%s user=%q", origin, addr.String(), addrClass(addr), username)
+	}
 	relayOnce.Do(buildRelays)
 	if relayErr != nil {
 		t.Fatalf("harness: cannot build relay clients: %v", relayErr)
